@@ -41,6 +41,7 @@ def tasks(tier):
     return [("stress formulas", "run_stress", {}), ("cell data", "run_celldata", {}), ("force+moment", "run_force", {}), ("topoints", "run_topoints", {}),
             ("project", "run_project", {}), ("extrapolate identity", "run_extrapolate", {}),
             ("extrapolate quad", "run_extrapolate_source", dict(cell_type="quad")), ("extrapolate hexahedron", "run_extrapolate_source", dict(cell_type="hexahedron")),
+            ("extrapolate quad9 (cell means)", "run_extrapolate_source", dict(cell_type="quad9")),
             # extrapolate / topoints identify the q-th quadrature point with the q-th point of the cell: the permuted Gauss rules list their points
             # in the order of the matching element's nodes
             ("rule point order vs element nodes", "run_included", dict(modname="c05", fname="run_perm", kwargs=dict(tier=tier), oid="C19.O8", select_oid="C05.O5",
@@ -330,10 +331,18 @@ def run_extrapolate_source(col, cell_type):
     GL = it.get("felupe.quadrature._gauss_legendre:GaussLegendre")
     Region = it.get("felupe.region._region:Region")
     ex = it.get("felupe.tools._project:extrapolate")
+    order = 1
     if cell_type == "quad":
         pts = [[0, 0], [1, 0], [2, F_(1, 3)], [0, 1], [F_(5, 4), 1], [2, F_(3, 2)]]
         cells = np.array([[0, 1, 4, 3], [1, 2, 5, 4]])
         elname, dim = "felupe.element._quad:Quad", 2
+    elif cell_type == "quad9":
+        # bi-quadratic cells with the 3x3 rule: the quadrature weights differ from point to point (only the cell-mean variant, mean=True,
+        # applies to a rule of this order)
+        pts = [[0, 0], [1, 0], [2, 0], [0, 1], [1, 1], [2, 1], [F_(1, 2), 0], [F_(3, 2), 0], [F_(1, 2), 1], [F_(3, 2), 1], [0, F_(1, 2)], [1, F_(1, 2)], [2, F_(1, 2)],
+               [F_(1, 2), F_(1, 2)], [F_(3, 2), F_(1, 2)]]
+        cells = np.array([[0, 1, 4, 3, 6, 11, 8, 10, 13], [1, 2, 5, 4, 7, 12, 9, 11, 14]])
+        elname, dim, order = "felupe.element._quad:BiQuadraticQuad", 2, 2
     else:
         pts = [[0, 0, 0], [1, 0, 0], [2, F_(1, 3), 0], [0, 1, 0], [F_(5, 4), 1, 0], [2, F_(3, 2), 0],
                [0, 0, 1], [1, 0, F_(6, 5)], [2, F_(1, 3), 1], [0, 1, 1], [F_(5, 4), 1, F_(4, 5)], [2, F_(3, 2), 1]]
@@ -341,7 +350,7 @@ def run_extrapolate_source(col, cell_type):
         elname, dim = "felupe.element._hexahedron:Hexahedron", 3
     mesh = it.call(Mesh, [npmodel.array(pts, dtype=npmodel.DType("float")), cells, cell_type], {})
     el = it.call(it.get(elname), [], {})
-    rule = it.call(GL, [], dict(order=1, dim=dim))
+    rule = it.call(GL, [], dict(order=order, dim=dim))
     reg = it.call(Region, [mesh, el, rule], dict(grad=False))
     inv = it.call_method(rule, "inv", [])
     ip = npmodel.to_obj(it.getattr(inv, "points"))
@@ -354,7 +363,7 @@ def run_extrapolate_source(col, cell_type):
             attached.setdefault(int(cells[c, a]), []).append((c, a))
     w = "tools/_project.py extrapolate"
     # tensor orders 0 .. 4 (the elasticity tensor is a fourth-order result; extents differ so that no two axes can be confused)
-    for shape in ((), (3,), (2, 3), (2, 2, 3), (2, 3, 2, 2) if cell_type == "quad" else (2, 3, 1, 2)):
+    for shape in (((), (3,), (2, 3), (2, 2, 3), (2, 3, 2, 2) if cell_type == "quad" else (2, 3, 1, 2)) if order == 1 else ((), (2, 3))):
         vals = symarray("V", shape + (npc, cells.shape[0]))
 
         def nodal(idx, c, a, mean):
@@ -363,7 +372,7 @@ def run_extrapolate_source(col, cell_type):
             return sum((H[a][q] * vals[idx + (q, c)] for q in range(npc)), ZERO)
 
         for average in (True, False):
-            for mean in (False, True):
+            for mean in ((False, True) if order == 1 else (True,)):
                 def chk(shape=shape, vals=vals, average=average, mean=mean):
                     out = npmodel.to_obj(np.asarray(it.call(ex, [vals.copy(), reg], dict(average=average, mean=mean))))
                     nrow = len(pts) if average else cells.shape[0] * npc
